@@ -386,9 +386,8 @@ pub mod conv {
 	pub fn from_quill<const N: usize, Ns>(q: &Mappings<N, Ns>) -> Result<MapSet> {
 		let ns: &[String; N] = (&q.info.namespaces).into();
 		let mut m = MapSet { ns: ns.to_vec(), classes: BTreeMap::new() };
-		if q.javadoc.is_some() {
-			bail!("top-level javadoc present: {:?}", q.javadoc);
-		}
+		// the comment of the set itself has no slot in the plain model: the checks that speak about it (C03, C04, C08, C09,
+		// C11) compare `javadoc` themselves
 		for (key, c) in &q.classes {
 			let key = jstr_to_string(key.as_inner())?;
 			let names = names_from(&c.info.names)?;
@@ -503,9 +502,7 @@ pub mod conv {
 		if q.info != Action::None {
 			bail!("diff has a namespace action {:?}", q.info);
 		}
-		if q.javadoc != Action::None {
-			bail!("diff has a top-level javadoc action");
-		}
+		// the action for the comment of the set itself has no slot in the plain model: C04 looks at it directly
 		for (key, c) in &q.classes {
 			let mut dc = DClass { act: mact(&c.info)?, doc: mdoc(&c.javadoc), ..Default::default() };
 			for (k, f) in &c.fields {
